@@ -608,7 +608,7 @@ def join_exts(exts):
 KNOWN_EXT_TYPES = [0, 1, 5, 10, 11, 12, 13, 15, 16, 18, 19, 20, 21, 22, 23, 27, 28, 34, 35, 40, 41, 42, 43, 44, 45,
                    47, 48, 49, 50, 51, 13172, 0xff01, 0xfafa]
 
-EXT_MUTS = ['empty', 'trunc1', 'truncN', 'dup', 'dup-all', 'hugelen', 'innerlen0', 'innerlenmax', 'unknown', 'add-known-empty',
+EXT_MUTS = ['empty', 'emptyvec2', 'emptyvec1', 'trunc1', 'truncN', 'dup', 'dup-all', 'hugelen', 'innerlen0', 'innerlenmax', 'unknown', 'add-known-empty',
             'add-known-junk', 'drop', 'swap-last', 'junk-body', 'append-junk', 'retype', 'zero-fill', 'ff-fill']
 GEN_MUTS = ['trunc', 'trunc-fix', 'extend', 'extend-fix', 'int0', 'intmax', 'intinc', 'intdec', 'flip', 'zero-body',
             'empty-body', 'retype-hs', 'dup-msg', 'len-lie-short', 'len-lie-long', 'split-junk']
@@ -670,7 +670,7 @@ def apply_msg_mutation(msg, mut, rng):
         if blk is not None and blk[1] > blk[0]:
             a, b = blk
             exts = split_exts(body[a:b])
-            new_exts, what = mutate_exts(exts, name[2:], rng)
+            new_exts, what = mutate_exts(exts, name[2:], rng, mut[1] if len(mut) > 1 and isinstance(mut[1], int) else None)
             if isinstance(new_exts, bytes):
                 nb = body[:a] + new_exts
             else:
@@ -683,12 +683,18 @@ def apply_msg_mutation(msg, mut, rng):
     return byte_level(ct, data, name, rng)
 
 
-def mutate_exts(exts, name, rng):
+def mutate_exts(exts, name, rng, index=None):
     exts = list(exts)
     i = rng.randrange(len(exts)) if exts else 0
+    if index is not None and exts:
+        i = index % len(exts)
     t = exts[i][0] if exts else 0
     if name == 'empty' and exts:
         exts[i] = (t, b'')
+    elif name == 'emptyvec2' and exts:
+        exts[i] = (t, b'\x00\x00')          # present, but its (2-byte length) vector is empty
+    elif name == 'emptyvec1' and exts:
+        exts[i] = (t, b'\x00')              # present, but its (1-byte length) vector is empty
     elif name == 'trunc1' and exts and exts[i][1]:
         exts[i] = (t, exts[i][1][:-1])
     elif name == 'truncN' and exts and exts[i][1]:
@@ -936,6 +942,41 @@ def ecpoint_cases(rng):
     return out
 
 
+SECOND_STEP = [
+    # (flavour, role under test, which occurrence of which handshake type among the PEER's messages)
+    ('tls13-hrr', 'server', 1, 1),      # the SECOND ClientHello (after HelloRetryRequest)
+    ('tls13-hrr', 'client', 2, 0),      # the HelloRetryRequest itself
+    ('tls13-hrr', 'client', 2, 1),      # the ServerHello that follows the HelloRetryRequest
+    ('tls13-resume', 'server', 1, 0),   # ClientHello of the resuming (second) connection: ticket / PSK binders
+    ('tls13-resume', 'client', 2, 0),   # ServerHello of the resuming connection: selected PSK
+    ('tls13-psk', 'server', 1, 0),
+    ('tls13-psk', 'client', 2, 0),
+    ('tls12-resume', 'server', 1, 0),   # second flight of session-ID resumption
+    ('tls12-resume', 'client', 2, 0),
+]
+
+
+def second_step_cases(rng, profiles, quick):
+    """Systematic extension-level mutations of the SECOND message of multi-step exchanges: every
+    extension of the message x every extension mutation (quick: the emptiness/length family only)."""
+    names = [f['name'] for f in get_flavours()]
+    muts = ['empty', 'emptyvec2', 'emptyvec1', 'trunc1', 'innerlen0', 'drop', 'dup', 'zero-fill', 'ff-fill'] if quick else EXT_MUTS
+    out = []
+    for fname, role, htype, occ in SECOND_STEP:
+        fi = names.index(fname)
+        base, pts = profiles[(fi, role)]
+        msgs = [p for p in pts if p[0] == 'msg' and p[2] == 22 and p[3] == htype]
+        if len(msgs) <= occ:
+            continue
+        target = msgs[occ][1]
+        for m in muts:
+            for idx in range(max(1, msgs[occ][5])):
+                out.append(dict(flavour=fi, role=role, seed=rng.randrange(1 << 30), level='msg', mut=('x:' + m, idx),
+                                phase='hs', target=target, tsel=0.0, mem=False, second_step=True,
+                                base=dict(calls=base.get('calls', 0), peak=base.get('peak', 0))))
+    return out
+
+
 def gen_cases(rng, n, flavour_ids=None):
     """n cases spread over flavours x roles x phases x mutation levels."""
     fl = get_flavours()
@@ -972,7 +1013,12 @@ def profile_task(key):
     fi, role = key
     try:
         r, collect = honest_profile(fi, role, 12345)
-        pts = [(c[0], c[1], c[2], (c[3][0] if c[3] else None), c[4]) for c in collect]
+        def n_ext(c):
+            if c[0] != 'msg' or c[2] != 22 or len(c[3]) < 4:
+                return 0
+            blk = find_ext_block(c[3][0], c[3][4:])
+            return len(split_exts(c[3][4:][blk[0]:blk[1]])) if blk and blk[1] > blk[0] else 0
+        pts = [(c[0], c[1], c[2], (c[3][0] if c[3] else None), c[4], n_ext(c)) for c in collect]
         return key, dict(calls=r['calls'], peak=r['peak'], outcome=r['outcome'], peer=r['peer'], bytes_in=r['bytes_in'],
                          problems=r['problems']), pts
     except Exception as e:  # noqa
